@@ -9,22 +9,27 @@ mod hashops;
 mod treeops;
 mod graphops;
 mod protoops;
+mod lockops;
 
 pub struct Ctx {
     pub hash: hashops::HashCtx,
     pub tree: treeops::TreeCtx,
     pub proto: protoops::ProtoCtx,
+    pub lock: lockops::LockCtx,
 }
 
 impl Ctx {
     fn new() -> Self {
-        Ctx { hash: hashops::HashCtx::new(), tree: treeops::TreeCtx::new(), proto: protoops::ProtoCtx::new() }
+        Ctx { hash: hashops::HashCtx::new(), tree: treeops::TreeCtx::new(), proto: protoops::ProtoCtx::new(), lock: lockops::LockCtx::new() }
     }
     fn exec(&mut self, w: &[&str]) -> String {
         if w.is_empty() {
             return "bad-op".into();
         }
         if let Some(r) = self.hash.exec(w) {
+            return r;
+        }
+        if let Some(r) = self.lock.exec(w) {
             return r;
         }
         if let Some(r) = self.proto.exec(w) {
@@ -50,12 +55,16 @@ fn run_stream<R: BufRead, W: Write>(inp: R, mut out: W) {
             Err(_) => "panic".to_string(),
         };
         writeln!(out, "{}", r).unwrap();
+        // a crash that kills the process must not lose the answers already given
+        out.flush().unwrap();
     }
 }
 
 fn main() {
     // panics are results, not noise
-    std::panic::set_hook(Box::new(|_| {}));
+    if std::env::var("ZKH_SHOW_PANICS").is_err() {
+        std::panic::set_hook(Box::new(|_| {}));
+    }
     let args: Vec<String> = std::env::args().collect();
     match args.get(1).map(|s| s.as_str()) {
         Some("run") => {
@@ -85,8 +94,55 @@ fn main() {
                 std::process::exit(3);
             }
         }
+        // C18: N threads issue the same read-only calls on ONE shared RLN instance (set up by the ops of the first
+        // file); prints the sequential transcript, then `CONCURRENT-MISMATCH` if any thread saw something else
+        Some("shared") => {
+            let n: usize = args[2].parse().unwrap();
+            let setup = std::fs::read_to_string(&args[3]).unwrap();
+            let ops = std::fs::read_to_string(&args[4]).unwrap();
+            let mut ctx = Ctx::new();
+            for line in setup.lines() {
+                let w: Vec<&str> = line.trim().split(' ').filter(|s| !s.is_empty()).collect();
+                ctx.exec(&w);
+            }
+            let rln = ctx.proto.rln.take().expect("setup must create the RLN instance");
+            let lines: Vec<String> = ops.lines().map(|s| s.to_string()).collect();
+            let seq: Vec<String> = lines.iter().map(|l| protoops::shared_op(&rln, l)).collect();
+            let rln = std::sync::Arc::new(rln);
+            let start = std::time::Instant::now();
+            let hs: Vec<_> = (0..n)
+                .map(|t| {
+                    let r = rln.clone();
+                    let ls = lines.clone();
+                    std::thread::spawn(move || {
+                        // each thread starts at a different offset so that different calls overlap
+                        let k = ls.len();
+                        let mut out = vec![String::new(); k];
+                        for j in 0..k {
+                            let i = (j + t * 7) % k;
+                            out[i] = protoops::shared_op(&r, &ls[i]);
+                        }
+                        out
+                    })
+                })
+                .collect();
+            let outs: Vec<Vec<String>> = hs.into_iter().map(|h| h.join().unwrap()).collect();
+            for l in &seq {
+                println!("{}", l);
+            }
+            if outs.iter().any(|o| *o != seq) {
+                println!("CONCURRENT-MISMATCH");
+                std::process::exit(3);
+            }
+            eprintln!("shared: {} threads x {} calls in {:?}", n, lines.len(), start.elapsed());
+        }
+        // C18: drop an on-disk tree and re-create it on the same location at once, n times; prints the slowest re-open
+        Some("reopen_loop") => {
+            let n: usize = args[2].parse().unwrap();
+            println!("{}", treeops::reopen_loop(n));
+        }
         _ => {
-            eprintln!("usage: zkh run < ops | zkh threads N opsfile");
+            eprintln!("usage: zkh run < ops | zkh threads N opsfile | zkh shared N setupfile opsfile | zkh reopen_loop n");
             std::process::exit(2);
         }
     }
